@@ -16,6 +16,10 @@ pub enum KeyFamily {
     FfRuns,
     /// long common prefix, keys differ only in the last byte(s)
     Prefixed,
+    /// ragged keys over a tiny alphabet of adjacent bytes and unpadded decimal numbers: neighbours
+    /// are often a prefix of each other or differ by exactly one in one byte while one of them goes
+    /// on (`key19` / `key2`, `ab` / `abb` / `ac`) - the cases separator shortening has to get right
+    Ragged,
 }
 
 impl KeyFamily {
@@ -26,14 +30,16 @@ impl KeyFamily {
             KeyFamily::OneByte => "one-byte",
             KeyFamily::FfRuns => "ff-runs",
             KeyFamily::Prefixed => "prefixed",
+            KeyFamily::Ragged => "ragged",
         }
     }
-    pub const ALL: [KeyFamily; 5] = [
+    pub const ALL: [KeyFamily; 6] = [
         KeyFamily::Ascii,
         KeyFamily::Binary,
         KeyFamily::OneByte,
         KeyFamily::FfRuns,
         KeyFamily::Prefixed,
+        KeyFamily::Ragged,
     ];
     pub fn pick(rng: &mut Rng) -> KeyFamily {
         match rng.below(10) {
@@ -41,6 +47,7 @@ impl KeyFamily {
             4..=5 => KeyFamily::Binary,
             6 => KeyFamily::OneByte,
             7 => KeyFamily::FfRuns,
+            8 => KeyFamily::Ragged,
             _ => KeyFamily::Prefixed,
         }
     }
@@ -116,6 +123,21 @@ pub fn key_pool(rng: &mut Rng, family: KeyFamily, n: usize) -> Vec<Vec<u8>> {
                     k.push(rng.below(256) as u8);
                 }
                 set.insert(k);
+            }
+        }
+        KeyFamily::Ragged => {
+            let decimal = rng.chance(0.5);
+            let mut guard = 0;
+            while set.len() < n && guard < n * 30 {
+                guard += 1;
+                if decimal {
+                    let top = [30u64, 300, 3000][rng.usize_below(3)];
+                    set.insert(format!("key{}", rng.below(top)).into_bytes());
+                } else {
+                    let base = [b'a', 0x00, 0xfd][rng.usize_below(3)];
+                    let len = rng.range(1, 5) as usize;
+                    set.insert((0..len).map(|_| base + rng.below(3) as u8).collect());
+                }
             }
         }
         KeyFamily::Prefixed => {
